@@ -536,3 +536,92 @@ def _ssi_transfer(spec, index_type):
 
 SSIT1 = _ssi_transfer("r1-slice", "tup:slice")
 SSIT2 = _ssi_transfer("r1-int", "tup:int")
+
+
+# ---------------------------------------------------------------------------
+# Blockwise.transfer_bytes (record abstraction: two array operands of rank 2, output rank 2)
+# ---------------------------------------------------------------------------
+BWF = "dask_array/_blockwise.py"
+
+
+def _bw_transfer(spec, ind0, ind1, out_ind):
+    @contract(f"{BWF}::Blockwise.transfer_bytes", spec=spec, props=["C27"])
+    class blockwise_transfer_bytes:
+        """a blockwise layer's estimate is a pair 0 <= min <= max: every distinct (operand, index pattern) adds
+        nbytes * (fanout - 1/gather) to min and nbytes * fanout to max with fanout >= 1 <= ... >= 1/gather, because block
+        counts are at least 1"""
+        params = {"self": "obj:BW"}
+        result = "tup:real,real"
+        fields = {"BW": {"args": "tup:obj:Arr,(tup:int,int),obj:Arr,(tup:int,int)", "out_ind": "tup:int,int", "numblocks": "tup:int,int"},
+                  "Arr": {"_name": "str", "numblocks": "tup:int,int", "nbytes": "int"},
+                  "__bases__": {"Arr": ["Arr", "ArrayExpr"]}}
+        externals = {"TransferBytes": _ext_transfer_bytes}
+        consts_index = (ind0, ind1, out_ind)
+
+        def requires(self):
+            a0, i0, a1, i1 = self.get("args").items
+            cs = []
+            for t, want in ((i0, ind0), (i1, ind1), (self.get("out_ind"), out_ind)):
+                cs += [S.item(t, k) == want[k] for k in range(2)]
+            for a in (a0, a1):
+                cs += [a.get("nbytes") >= 0, S.item(a.get("numblocks"), 0) >= 1, S.item(a.get("numblocks"), 1) >= 1]
+            cs += [S.item(self.get("numblocks"), k) >= 1 for k in range(2)]
+            return S.And(*cs)
+
+        def ensures(result, self):
+            lo, hi = result.items
+            return {"0<=min<=max": S.And(0 <= lo.t, lo.t <= hi.t)}
+
+        loops = {
+            "for#2": Loop(invariant=lambda v, v0: {"fanout-at-least-one": v.fanout >= 1}),
+        }
+
+    blockwise_transfer_bytes.__name__ = "blockwise_transfer_bytes_" + spec.replace("-", "_")
+    return blockwise_transfer_bytes
+
+
+BWT1 = _bw_transfer("r2-aligned", (0, 1), (0, 1), (0, 1))
+BWT2 = _bw_transfer("r2-matmul-like", (0, 2), (2, 1), (0, 1))
+BWT3 = _bw_transfer("r2-same-pattern-twice", (0, 1), (0, 1), (1, 0))
+
+
+def _ext_dependencies(ndeps):
+    def m_dependencies(ex, st, base, args, kwargs, node):
+        """expr.dependencies(): the operand expressions (a fixed number of opaque array records, each with nbytes >= 0)"""
+        from pyvc.spec import TupV
+        deps = [ex.fresh_value("obj:Arr", f"dep{i}") for i in range(ndeps)]
+        for d in deps:
+            st.pc.append(S._t(d.get("nbytes") >= 0))  # class invariant of an array expression: a size in bytes
+        return TupV(deps, "list")
+    return m_dependencies
+
+
+def _default_transfer(ndeps):
+    @contract(f"{EXPR}::ArrayExpr.transfer_bytes", spec=f"default-{ndeps}-deps", props=["C27"])
+    class default_transfer_bytes:
+        """the default (block-aligned) estimate: every distinct dependency adds a non-negative amount to min and at least as
+        much to max -- (ratio - 1, ratio) copies of its bytes when it is broadcast to more blocks, ((1 - ratio), 1) when
+        several of its blocks are gathered -- so 0 <= min <= max"""
+        params = {"self": "obj:Node"}
+        result = "tup:real,real"
+        fields = {"Node": {"numblocks": "tup:int,int"}, "Arr": {"_name": "str", "numblocks": "tup:int,int", "nbytes": "int"},
+                  "__bases__": {"Arr": ["Arr", "ArrayExpr"]}}
+        externals = {"TransferBytes": _ext_transfer_bytes}
+        methods = {"Node.dependencies": _ext_dependencies(ndeps)}
+
+        def requires(self):
+            return S.And(*[S.item(self.get("numblocks"), k) >= 0 for k in range(2)])
+
+        def ensures(result, self, env=None, calls=None):
+            lo, hi = result.items
+            return {"0<=min<=max": S.And(0 <= lo.t, lo.t <= hi.t)}
+
+        def assume_deps(v):
+            return True
+
+    default_transfer_bytes.__name__ = f"default_transfer_bytes_{ndeps}"
+    return default_transfer_bytes
+
+
+DT1 = _default_transfer(1)
+DT2 = _default_transfer(2)
